@@ -196,3 +196,15 @@ class ds9_successive_global_lines:
             str(result[0].raw_meta.get(kv.split('=')[0])) == kv.split('=')[1]
             for kv in first.split() if kv.split('=')[0] not in [x.split('=')[0] for x in second.split()]),
     }
+
+
+@contract(READ + '_parse_metadata', props=['C10'])
+class ds9_property_names_are_case_insensitive:
+    """property names of a region or global line are recognised in any case; the values keep theirs"""
+    cases = {'lower': {'text': 'color=Red include=0 text={Ab c}'}, 'upper': {'text': 'COLOR=Red INCLUDE=0 TEXT={Ab c}'},
+             'mixed': {'text': 'Color=Red Include=0 Text={Ab c}'}}
+
+    def setup(B, text='color=Red'):
+        return dict(metadata_str=text)
+    post = {'keys_lower_case_values_verbatim': lambda result:
+            dict(result) == {'color': 'Red', 'include': '0', 'text': 'Ab c'}}
